@@ -229,6 +229,34 @@ def subst_locals(fn: ast.FunctionDef, expr: ast.expr, depth: int = 4) -> ast.exp
     return Sub(depth, at).visit(copy.deepcopy(expr))
 
 
+def once_defs(stmts) -> Dict[str, ast.expr]:
+    """name -> rhs for names assigned exactly once at the top level of a statement list (a loop body, say)."""
+    cnt: Dict[str, int] = {}
+    rhs: Dict[str, ast.expr] = {}
+    for st in stmts:
+        for n in ast.walk(st):
+            if isinstance(n, ast.Name) and isinstance(n.ctx, ast.Store):
+                cnt[n.id] = cnt.get(n.id, 0) + 1
+        if isinstance(st, ast.Assign) and len(st.targets) == 1 and isinstance(st.targets[0], ast.Name):
+            rhs[st.targets[0].id] = st.value
+    return {k: v for k, v in rhs.items() if cnt.get(k) == 1}
+
+
+def resolve_in_block(e: ast.expr, stmts, depth: int = 5) -> ast.expr:
+    """`e` with the block's once-assigned locals replaced by their definitions."""
+    import copy
+    defs = once_defs(stmts)
+
+    def go(x, d):
+        class Sub(ast.NodeTransformer):
+            def visit_Name(self, node):
+                if isinstance(node.ctx, ast.Load) and node.id in defs and d > 0:
+                    return go(defs[node.id], d - 1)
+                return node
+        return Sub().visit(copy.deepcopy(x))
+    return go(e, depth)
+
+
 def check_pack_pair(repo: Repo, rep, P: str, rule: str, writer_ci: ClassInfo, writer_fn: str, chunk_id: bytes,
                     reader_ci: ClassInfo, widths: Dict[str, int], obj_prefix=("self", "object")):
     """`pack(FMT, EXPR(self.a, self.b))` in the writer vs the statements of `process_<ID>` in the reader."""
